@@ -6,7 +6,9 @@
 From Coq Require Import Floats.
 From JM Require Import Model.Base Model.Num Model.Value Model.Lexer Model.Parser Model.Interp Model.Api Model.State
      Proofs.Frame Inst.FloatNum Run.Checker.
-From JM Require Import gen.Writes.
+From Coq Require Import String.
+From JM Require Import gen.Writes gen.State Proofs.StateOk.
+Import ListNotations.
 
 Section C13.
 Context {NumO : NumOps}.
@@ -40,11 +42,38 @@ Theorem C13_no_write_to_shared_storage :
   forall w : write_site, In w write_sites -> ws_prov w = PFresh.
 Proof. exact write_site_fresh. Qed.
 
+(* ---- the state inventory, regenerated from the source on every run (gen/State.v) ----
+   the objects that live across calls have exactly the fields the history model accounts
+   for (Model/State.v): Parser{expression, tokens, index}, JMESPath{ast, intr}; the
+   interpreter and the function table hold no per-call data; the only package-level
+   variables are the constant tables — no pool, cache or counter; and Parse assigns every
+   field of its Parser.  A new field, a package-level variable or a field that Parse does not
+   assign breaks these obligations (and the check then searches for the failing history). *)
+Theorem C13_objects_have_the_modelled_fields :
+  fields_of "Parser" struct_fields = Some ["expression"; "tokens"; "index"]%string /\
+  fields_of "JMESPath" struct_fields = Some ["ast"; "intr"]%string /\
+  fields_of "treeInterpreter" struct_fields = Some ["fCall"]%string /\
+  fields_of "functionCaller" struct_fields = Some ["functionTable"]%string /\
+  fields_of "functionEntry" struct_fields = Some ["name"; "arguments"; "handler"; "hasExpRef"]%string /\
+  fields_of "Lexer" struct_fields = Some ["expression"; "currentPos"; "lastWidth"; "buf"]%string.
+Proof. exact state_objects. Qed.
+
+Theorem C13_no_package_level_state :
+  package_vars = ["_astNodeType_index"; "_tokType_index"; "basicTokens"; "bindingPowers"; "identifierTrailingBits"; "whiteSpace"]%string.
+Proof. exact state_package_vars. Qed.
+
+Theorem C13_parse_assigns_every_field_of_the_parser :
+  forall fs, fields_of "Parser" struct_fields = Some fs -> forall f, In f fs -> In f parse_assigns.
+Proof. exact parse_assigns_every_field. Qed.
+
 Print Assumptions C13_search_history.
 Print Assumptions C13_oneshot_is_compiled.
 Print Assumptions C13_parser_reuse.
 Print Assumptions C13_parse_ignores_previous_state.
 Print Assumptions C13_no_write_to_shared_storage.
+Print Assumptions C13_objects_have_the_modelled_fields.
+Print Assumptions C13_no_package_level_state.
+Print Assumptions C13_parse_assigns_every_field_of_the_parser.
 
 (* a parser that just failed on "a[" parses "a.b" like a fresh one *)
 Example C13_example :
